@@ -239,7 +239,7 @@ def _cases(tier):
     # eigenvector matrix of the (diagonal) covariance is then a non-symmetric permutation for some orders
     c = [(1, 1), (2, 1), (3, 1), (1, 3, 1), (1, 3, 2)]
     if tier == "thorough":
-        c += [(2, 2), (2, 3, 1)]
+        c += [(2, 2)]          # ((2, 3, 1) did not finish within 30 minutes and is not claimed)
     return c
 
 
@@ -530,7 +530,7 @@ BOUNDS = {"quick": {"database": "predict / window: n <= 3 entries, cdf / quantil
                                 "unrestricted mode and every non-negative cut-off x2_max (parameterised by the half-width of the projection window), two quantile fractions; "
                                 "predict / window also for n = 1 entry with m = 3 channels, diagonal covariance whose smallest variance sits in the second or third "
                                 "channel, eigenpairs in any order and sign (eig) or ascending (eigh)"},
-          "thorough": {"database": "adds n = 2 with m = 2 and m = 3 channels (diagonal covariance, eigenpairs in any order and "
+          "thorough": {"database": "adds n = 2 with m = 2 channels (diagonal covariance, eigenpairs in any order and "
                                    "sign) for predict; cdf / quantiles stay at n <= 2 (n = 3 exceeds the solver budget)"}}
 OUTSIDE = ["float underflow of the weights (the reason real runs reach the NaN branch with a non-empty window)",
            "crps, pdf", "correlated covariances and m > 3", "the quantitative bound on the change caused by x2_max",
